@@ -2,6 +2,7 @@
 from __future__ import annotations
 
 import ast
+import re
 
 from ..absint import Const, Obj, Tup, explore, vkey
 from ..core import Unrecognised
@@ -273,6 +274,19 @@ def _r3_input(repo, report, rule):
     rows = explore(repo, strip_docstring(fn.body), {params(fn)[0]: Obj("FILE", nonnull=True)}, inline=False)
     outs = sorted({vkey(r.exit[1]) if r.exit[0] == "return" else r.exit[0] for r in rows})
     ok = outs == ["FileFormat.BAM", "FileFormat.FASTA", "FileFormat.FASTQ", "raise"] and not any("name" in k for r in rows for k in r.valuation)
+    # ... and leaves the stream where it found it: whatever is read is given back (seek to the remembered position); a
+    # stream that cannot seek is only peeked at. A consuming read there removes the first bytes for the parser - the same
+    # data gives another result through a pipe than from a file.
+    eaten = []
+    for r in rows:
+        seq_ = [c_[0] for c_ in r.calls if c_[0].startswith("FILE.")]
+        reads = [i for i, c_ in enumerate(seq_) if re.fullmatch(r"FILE\.read\w*\([^()]*\)", c_)]
+        for i in reads:
+            if not any(c_.startswith("FILE.seek(") for c_ in seq_[i + 1:]) or r.valuation.get("truthy:FILE.seekable()") is not True:
+                eaten.append({"path": r.describe()["valuation"], "calls": seq_})
+    report.ob(rule, "detect_file_format consumes nothing", not eaten, facts={"problems": eaten[:2]}, loc=repo.loc(fn), cases=len(rows),
+              expected="read() only on a seekable stream and followed by seek(<position before>); peek() otherwise",
+              why=(f"on the path {eaten[0]['path']} the stream is read ({[c for c in eaten[0]['calls'] if 'read' in c][0]}) and not put back: the parser starts behind the first bytes of a piped input" if eaten else ""))
     report.ob(rule, "detect_file_format looks only at the first bytes", ok, facts={"outcomes": outs, "atoms": sorted({k for r in rows for k in r.valuation})[:8]}, expected="FASTQ / FASTA / BAM by magic, else UnknownFileFormat; never the file name", loc=repo.loc(fn), cases=len(rows))
 
 
